@@ -398,6 +398,33 @@ func TestC15(t *testing.T) {
 				t.Fatalf("%s", msg)
 			}
 		})
+		// structured exhaustive lane matcher table: every key (quick: every 5th) x every word whose four lanes
+		// are drawn from eight variants of the key (the key itself, its neighbours, sign flips, 0, 0xffff)
+		{
+			shard, n := evid.Shard()
+			step := evid.Pick(5, 1)
+			for key := shard * step; key < 65536; key += n * step {
+				k := uint16(key)
+				variants := [8]uint16{k, k + 1, k - 1, k ^ 0x8000, 0, 0xffff, ^k, k + 0x100}
+				for code := 0; code < 4096; code++ {
+					var w uint64
+					for lane := 0; lane < 4; lane++ {
+						w |= uint64(variants[code>>(3*lane)&7]) << (16 * lane)
+					}
+					gi, gok := transp.VerifMatch64(w, k)
+					wi, wok := lanes(w, k)
+					if gok != wok || (gok && gi != wi) {
+						rec.Violate("match64", fmt.Sprintf("match64(%016x, %04x) = (%d, %v), lane loop says (%d, %v)", w, k, gi, gok, wi, wok), map[string]any{"word": w, "key": k})
+						return
+					}
+				}
+				rec.Eval(4096)
+				rec.NT(evid.H("m64table", key))
+			}
+			if step == 1 {
+				rec.Exhaustive("lane matcher: all 65536 keys x 4096 words built from eight key-relative lane values")
+			}
+		}
 	}, func(check string, raw json.RawMessage) error {
 		if check == "match64" {
 			var c struct {
